@@ -8,6 +8,9 @@ spec/trace/J_GridTopology.tla  TLC judges what the real pp.Grid queries returned
 Binding (i): every emitted complex is instantiated with pp.Grid(dim, nodes, face_nodes, cell_faces, name).
 Binding (ii): real porepy grids (Cartesian, structured simplex, fractured grids from pp.meshing.cart_grid,
 results of pp.partition.extract_subgrid) are exported as integer incidence and judged the same way.
+Binding (iii): query - update in place - query: the grids of a fractured domain are queried before porepy splits
+their fracture faces / lets the fractures propagate (in-place changes of cell_faces, num_faces), and the same
+objects are queried and judged again after every update.
 Python only builds the grids, calls the queries and serialises integers."""
 from __future__ import annotations
 
@@ -176,6 +179,69 @@ def real_recipes(ctx):
     return out + ext
 
 
+# ---------------------------------------------------------------------------------------------------
+# query - change the topology in place - query again (porepy splits / propagates fractures in place)
+def det_queries(G):
+    """Deterministic scrambled boundary-face lists (replay must reproduce them)."""
+    bf = [f for f, ps in enumerate(G["cf"]) if len(ps) == 1]
+    return [q for q in (bf[::-1], bf[1::2] + bf[0::2]) if q]
+
+
+def scenario_stages(sc):
+    """Generator over the stages of an in-place update scenario; yields the SAME grid objects at every
+    stage (the consumer queries them between the stages).
+    ["split", fracs, dims]: the grids are built as pp.meshing.cart_grid does, queried before the fracture
+        faces are split, then subdomains_to_mdg tags, assembles and splits them in place.
+    ["propagate", fracs, dims, steps]: fractured md-grid; every step lets the fractures grow over the given
+        faces of the matrix grid (pp.propagate_fracture.propagate_fractures, in place)."""
+    import porepy as pp
+    from porepy.fracs import structured
+
+    fracs = [np.array(f) for f in sc[1]]
+    dims = list(sc[2])
+    if sc[0] == "split":
+        make = structured._cart_grid_2d if len(dims) == 2 else structured._cart_grid_3d
+        sub = make(fracs, dims, physdims=dims)
+        grids = [g for level in sub for g in level if g.dim >= 1]
+        yield grids
+        pp.meshing.subdomains_to_mdg(sub)
+        yield grids
+    elif sc[0] == "propagate":
+        mdg = pp.meshing.cart_grid(fracs, np.array(dims))
+        low = list(mdg.subdomains(dim=len(dims) - 1))
+        grids = list(mdg.subdomains(dim=len(dims))) + low
+        yield grids
+        for step in sc[3]:
+            pp.propagate_fracture.propagate_fractures(mdg, {g: np.array(f, dtype=int) for g, f in zip(low, step)})
+            yield grids
+    else:
+        raise ValueError(sc)
+
+
+def scenario_cases(sc):
+    """All C21 queries on every grid at every stage of the scenario."""
+    cases = []
+    for stage, grids in enumerate(scenario_stages(sc)):
+        for j, g in enumerate(grids):
+            G = grid_to_inc(g)
+            cases.append({"src": dict(kind="inplace", scenario=sc, stage=stage, grid=j), "in": G,
+                          "out": observe(g, det_queries(G))})
+    return cases
+
+
+def scenarios(ctx):
+    sc = [["split", [[[1, 3], [1, 1]], [[2, 2], [0, 2]]], [4, 2]],
+          ["split", [[[1, 1, 1, 1], [0, 2, 2, 0], [0, 0, 2, 2]]], [2, 2, 2]],
+          ["propagate", [[[1, 2], [1, 1]], [[2, 3], [2, 2]]], [6, 3], [[[29], []], [[30], [34, 36]]]]]
+    if not ctx.quick:
+        sc += [["split", [[[1, 3], [1, 1]]], [4, 2]],
+               ["split", [[[1, 4], [2, 2]], [[2, 2], [1, 3]], [[3, 3], [0, 4]]], [5, 4]],
+               ["split", [[[1, 1, 1, 1], [0, 2, 2, 0], [0, 0, 2, 2]], [[0, 2, 2, 0], [1, 1, 1, 1], [0, 0, 2, 2]]], [2, 2, 2]],
+               ["propagate", [[[2, 3], [1, 1]]], [5, 2], [[[20]], [[18]]]],
+               ["propagate", [[[1, 2], [1, 1]], [[2, 3], [2, 2]]], [6, 3], [[[], [36]], [[29], [34]], [[30], []]]]]
+    return sc
+
+
 def judge_cases(ctx, cases, tag, cap=8, chunk=4000):
     seen = {}
     verdicts = []
@@ -201,7 +267,9 @@ def run(ctx):
     ctx.rule = ("(i) every abstract complex emitted by TLC (box, cell subset, orientation mask, split class) is "
                 "instantiated with pp.Grid and (ii) real porepy grids (Cartesian, simplex, fractured, extracted) are "
                 "exported as integer incidence; all six queries of each grid are judged by TLC against the reference "
-                "derived from the incidence; a case is non-trivial when the grid has interior and boundary faces; "
+                "derived from the incidence; (iii) in-place updates: the grids of a fractured domain are queried, then split / "
+                "propagated in place by porepy (subdomains_to_mdg, propagate_fractures) and the SAME objects are queried "
+                "and judged again at every stage; a case is non-trivial when the grid has interior and boundary faces; "
                 "keys = (source family, #cells, #faces, #boundary faces, split?)")
     if ctx.quick:
         boxes = {("chain", 1, 1), ("chain", 4, 1), ("quad", 2, 2), ("quad", 3, 2), ("tri", 2, 1), ("tri", 2, 2)}
@@ -233,6 +301,11 @@ def run(ctx):
             continue
         G = grid_to_inc(g)
         cases.append({"src": dict(kind="real", recipe=rc), "in": G, "out": observe(g, rand_queries(ctx.rng, G))})
+    for sc in scenarios(ctx):
+        try:
+            cases += scenario_cases(sc)
+        except Exception as e:  # noqa: BLE001 - porepy's own update code uses the queries under test
+            broken.append(f"{sc}: {e!r}")
     judge_cases(ctx, cases, "judge")
     if broken and not ctx.violations:
         raise RuntimeError(f"porepy grid factory failed: {broken[0]}")
@@ -241,7 +314,9 @@ def run(ctx):
     for c in cases:
         G = c["in"]
         nb = sum(1 for ps in G["cf"] if len(ps) == 1)
-        kind = c["src"]["kind"] if c["src"]["kind"] == "complex" else c["src"]["recipe"][0]
+        kind = c["src"]["recipe"][0] if c["src"]["kind"] == "real" else c["src"]["kind"]
+        if kind == "inplace":
+            kind = "inplace-%s-stage%d" % (c["src"]["scenario"][0], min(c["src"]["stage"], 1))
         split = c["src"]["kind"] == "complex" and c["src"]["tag"][3] >= 0
         ctx.case(key=(kind, G["dim"], G["nc"], G["nf"], nb, split), nontrivial=0 < nb < G["nf"])
     for c in (cases[len(cases) // 3], cases[-1]):
@@ -249,11 +324,21 @@ def run(ctx):
                         bnd=c["out"]["bnd_updated"], sc=c["out"]["sc"][:1]))
     ctx.exhaustive = True
     ctx.extra["real_grids"] = sum(1 for c in cases if c["src"]["kind"] == "real")
+    ctx.extra["inplace_update_cases"] = sum(1 for c in cases if c["src"]["kind"] == "inplace")
 
 
 def replay(ctx, body):
     warnings.filterwarnings("ignore")
     rec = body["record"]
+    if rec["src"]["kind"] == "inplace":
+        # re-run the whole scenario (the earlier queries are part of the case) and judge the recorded stage
+        src = rec["src"]
+        case = next(c for c in scenario_cases(src["scenario"])
+                    if c["src"]["stage"] == src["stage"] and c["src"]["grid"] == src["grid"])
+        ctx.case(key="replay")
+        ctx.sample(dict(src=src, div_shapes=[d["shape"] for d in case["out"]["div"]]))
+        judge_cases(ctx, [case], "replay")
+        return
     if rec["src"]["kind"] == "real":
         g = build(rec["src"]["recipe"])
         G = grid_to_inc(g)
